@@ -11,6 +11,13 @@ pub const Q_LIMIT_LOG: i32 = 26;
 pub fn to_f64(v: &Value) -> f64 {
     let p = v[0].as_i64().expect("num p");
     let q = v[1].as_i64().expect("num q");
+    // tolerance tokens: exactly the f64 constants the SDK compares with
+    if q == -6 {
+        return if p > 0 { 1e-6 } else { -1e-6 };
+    }
+    if q == -7 {
+        return if p > 0 { 1e-7 } else { -1e-7 };
+    }
     if q == 0 {
         return if p > 0 {
             f64::INFINITY
@@ -33,6 +40,18 @@ pub fn from_f64(x: f64) -> Value {
     }
     if x == f64::NEG_INFINITY {
         return json!([-1, 0]);
+    }
+    if x == 1e-6 {
+        return json!([1, -6]);
+    }
+    if x == -1e-6 {
+        return json!([-1, -6]);
+    }
+    if x == 1e-7 {
+        return json!([1, -7]);
+    }
+    if x == -1e-7 {
+        return json!([-1, -7]);
     }
     let mut y = x;
     for k in 0..=Q_LIMIT_LOG {
